@@ -78,6 +78,14 @@ class LayerRunner:
         self.rec.enabled = True
         self.blocks = []
 
+    def cdir_of(self):
+        """the directory of the underlying cache (a second handle of a fanout-made object goes to the
+        same subdirectory)"""
+        c = self.cfg
+        if c.get('via') == 'fanout':
+            return os.path.join(self.dir, 'deque', 'd') if self.cls == 'deque' else os.path.join(self.dir, 'index', 'x')
+        return self.dir
+
     def settings(self):
         c = self.cfg
         return dict(eviction_policy=POLICY[c['policy']], cull_limit=c['cull'], disk_min_file_size=c['mfs'],
@@ -306,11 +314,25 @@ class DequeRunner(LayerRunner):
 
     def make(self):
         c = self.cfg
-        cache = self.env.diskcache.Cache(self.dir, eviction_policy='none', disk_min_file_size=c['mfs'],
-                                         disk_pickle_protocol=c['proto'])
         self.cfg['policy'] = 'none'
+        via = c.get('via')
+        if via == 'fanout' and self.owns_dir:
+            # the Deque a FanoutCache hands out (fanout.deque(name)): its own cache in a subdirectory,
+            # which must never evict; brought to the history's settings afterwards
+            self.fc = self.env.diskcache.FanoutCache(self.dir, shards=2)
+            obj = self.fc.deque('d', maxlen=c.get('maxlen'))
+            cache = obj._cache
+            cache.reset('disk_min_file_size', c['mfs'])
+            cache.reset('disk_pickle_protocol', c['proto'])
+        else:
+            cache = self.env.diskcache.Cache(self.cdir_of(), eviction_policy='none', disk_min_file_size=c['mfs'],
+                                             disk_pickle_protocol=c['proto'])
+            obj = self.env.diskcache.Deque.fromcache(cache, maxlen=c.get('maxlen'))
+        if c.get('limN', 2 ** 30) != 2 ** 30:
+            cache.reset('size_limit', c['limN'])        # a tiny limit: a Deque must still never evict
         self.cache = cache
-        return self.env.diskcache.Deque.fromcache(cache, maxlen=c.get('maxlen'))
+        self.cdir = cache.directory
+        return obj
 
     def page_size(self):
         return self.cache._page_size
@@ -320,7 +342,7 @@ class DequeRunner(LayerRunner):
         return LayerRunner.cfg_line(self, maxlen='n' if ml is None else ml)
 
     def state(self):
-        return dir_state(self.dir, self.local_ids(self.dir))
+        return dir_state(self.cdir, self.local_ids(self.cdir))
 
     def state_line(self):
         return 'lstate cls=deque'
@@ -418,7 +440,7 @@ class DequeRunner(LayerRunner):
                 else:
                     ml = d.maxlen
                     d._cache.close()
-                    new = self.env.diskcache.Deque(directory=self.dir, maxlen=ml)
+                    new = self.env.diskcache.Deque(directory=self.cdir, maxlen=ml)
             finally:
                 self.rec.enabled = True
             if type(new) is not type(d) or new.directory != d.directory:
@@ -434,17 +456,29 @@ class IndexRunner(LayerRunner):
 
     def make(self):
         c = self.cfg
-        cache = self.env.diskcache.Cache(self.dir, eviction_policy='none', disk_min_file_size=c['mfs'],
-                                         disk_pickle_protocol=c['proto'])
         self.cfg['policy'] = 'none'
+        via = c.get('via')
+        if via == 'fanout' and self.owns_dir:
+            self.fc = self.env.diskcache.FanoutCache(self.dir, shards=2)
+            obj = self.fc.index('x')
+            cache = obj._cache
+            cache.reset('disk_min_file_size', c['mfs'])
+            cache.reset('disk_pickle_protocol', c['proto'])
+        else:
+            cache = self.env.diskcache.Cache(self.cdir_of(), eviction_policy='none', disk_min_file_size=c['mfs'],
+                                             disk_pickle_protocol=c['proto'])
+            obj = self.env.diskcache.Index.fromcache(cache)
+        if c.get('limN', 2 ** 30) != 2 ** 30:
+            cache.reset('size_limit', c['limN'])        # a tiny limit: an Index must still never evict
         self.cache = cache
-        return self.env.diskcache.Index.fromcache(cache)
+        self.cdir = cache.directory
+        return obj
 
     def page_size(self):
         return self.cache._page_size
 
     def state(self):
-        return dir_state(self.dir, self.local_ids(self.dir))
+        return dir_state(self.cdir, self.local_ids(self.cdir))
 
     def state_line(self):
         return 'lstate cls=index'
@@ -533,7 +567,7 @@ class IndexRunner(LayerRunner):
                     new = pickle.loads(pickle.dumps(x))
                 else:
                     x._cache.close()
-                    new = self.env.diskcache.Index(self.dir)
+                    new = self.env.diskcache.Index(self.cdir)
             finally:
                 self.rec.enabled = True
             if type(new) is not type(x) or new.directory != x.directory:
